@@ -792,10 +792,19 @@ def add_anchors(model, rng, n_groups=2, n_marks=3, n_ligs=1, mkmk=0.5, multi_mar
         a = plan.get(g["name"])
         if not a:
             continue
+        # sub-unit variation: fractional coordinates that move by less than half a unit between masters yet round to
+        # different integers (100.4 / 100.6) - each master is rounded on its own before deltas are taken
+        subunit = {n: (rng.choice([0.4, 0.25, 0.45]), rng.choice([0.4, 0.3, 0.45])) for (n, _x, _y) in a if half and rng.random() < 0.2}
         for mname, layer in g["layers"].items():
             out = []
             for (n, x, y) in a:
-                if mname == default:
+                if n in subunit:
+                    fx, fy = subunit[n]
+                    if mname == default:
+                        out.append({"name": n, "x": math.floor(x) + fx, "y": math.floor(y) + fy})
+                    else:
+                        out.append({"name": n, "x": math.floor(x) + fx + rng.choice([0.2, 0.3, 0.0, -0.1]), "y": math.floor(y) + fy + rng.choice([0.25, 0.15, 0.0])})
+                elif mname == default:
                     out.append({"name": n, "x": x, "y": y})
                 else:
                     dx, dy = rng.randint(-vary_amount, vary_amount), rng.randint(-vary_amount, vary_amount)
